@@ -24,7 +24,7 @@ from .c10 import PREFIXES, YEAROPTS, _mode_args, line_marker
 ID = "C07"
 MODULE = "mc.checks.c07"
 HOLDERS = ["Jane Doe", "Jane Doe <jane@example.com>", "Müller & Söhne GmbH", "Acme, Inc. (\"ACME\") 100%"]
-PRIORS = ["empty", "code", "foreign-header", "binary-looking", "ignore-block-top", "ignore-block-after-code"]
+PRIORS = ["empty", "code", "foreign-header", "binary-looking", "ignore-block-top", "ignore-block-after-code", "unparseable-tag"]
 TARGETS = ["in-file", "force-dot-license", "fallback-dot-license", "binary", "uncommentable"]
 S3_STYLES = ["python", "c", "html", "cpp", "jinja", "lisp"]
 S3_TEMPLATES = [None, "full", "nocontrib", "nolicence", "nocopyright", "nothing", "hash.commented", "nolicence.commented", "nothing.commented"]
@@ -167,6 +167,13 @@ def prior_text(kind, style_cls):
         return "", [], []
     if kind == "code":
         return "first line of content\nsecond line\n", [], []
+    if kind == "unparseable-tag":
+        # the slash notation many Rust crates use: not an SPDX expression, so the linter cannot read the file at all
+        try:
+            block = style_cls.create_comment("SPDX-License-Identifier: MIT/Apache-2.0")
+        except Exception:
+            return "first line of content\nsecond line\n", [], []
+        return block + "\n\nfirst line of content\n", [], []
     if kind.startswith("ignore-block"):
         # a comment of the file's own style that shows a tag inside an ignore block: it declares nothing, and must not swallow the new header
         try:
